@@ -130,6 +130,14 @@ def guard_cases(rng, name, nd, safe, per):
             else:
                 st["int"][0] = rng.randrange(0, 9)
                 st["float"][1] = rng.choice([0x7fc00000, fbits(-0.5), 0x7f800000, 0xff800000, fbits(-1e-30)])
+        elif name == "FLOATVECTOR./":
+            while True:
+                n2 = rng.randrange(1, 5); j = rng.randrange(n2); off = rng.randrange(-2, 3); i = j - off
+                if i >= 0: break
+            top = [fbits(rng.randrange(1, 9) / 2) for _ in range(i + 1 + rng.randrange(0, 3))]
+            top[i] = rng.choice([0, 0x80000000])
+            st["fvec"] = [top, [fbits(rng.randrange(-8, 9) / 2) for _ in range(n2)]] + st["fvec"][2:]
+            st["int"][0] = off
         else: raise KeyError(name)
         st["exec"] = [I(name)] + st["exec"]
         out.append(case_run(rng.randrange(2), state(**st), 0, 1, world=(nn, ())))
@@ -140,7 +148,7 @@ GUARDED = ["INTEGER./", "INTEGER.%", "FLOAT./", "FLOAT.%", "INDEX.INCREASE", "FL
            "BOOLVECTOR.ONES", "BOOLVECTOR.ZEROS", "INTVECTOR.ONES", "INTVECTOR.ZEROS", "FLOATVECTOR.ONES", "FLOATVECTOR.ZEROS",
            "CODE.DEFINITION", "EXEC.CMD", "GRAPH.NODE*GETSTATE", "GRAPH.NODE*SETSTATE", "GRAPH.NODE*NEIGHBORS",
            "GRAPH.NODE*PREDECESSORS", "GRAPH.NODE*SUCCESSORS", "GRAPH.NODES*HISTORY", "GRAPH.NODE*HISTORY", "GRAPH.EDGE*HISTORY",
-           "BOOLVECTOR.RAND", "INTVECTOR.RAND", "FLOATVECTOR.RAND"]
+           "BOOLVECTOR.RAND", "INTVECTOR.RAND", "FLOATVECTOR.RAND", "FLOATVECTOR./"]
 
 
 def classes(cases):
@@ -187,7 +195,7 @@ def streams(seed, tier):
     out.append(Stream("failed-guards", "run", "frame.check", guard,
                       "%d instructions with a guard on operand values (Spec/Footprint.v gd_all) x %d states with every operand present and the guard failing "
                       "(zero divisor incl. -0.0, size <= 0 incl. i32::MIN, unbound name, EXEC.CMD with a negative count or too few NAMEs, node id <= 0, negative stack position, "
-                      "*.RAND vectors with a negative size, NaN / out-of-range sparsity, max <= min, negative or non-finite deviation), "
+                      "*.RAND vectors with a negative size, NaN / out-of-range sparsity, max <= min, negative or non-finite deviation, FLOATVECTOR./ with a zero divisor over the second vector), "
                       "every case re-classified as `guard fails` by the specification" % (len([g for g in GUARDED if g in todo]), gper)))
     per = {"quick": 40, "thorough": 300, "search": 300}[tier]
     fired = []
@@ -211,11 +219,11 @@ TECHNIQUE = ("Coq theorems by reflection over the registry table: one footprint 
 DESIGN_REF = "DESIGN.md section 6.C10"
 LEVEL_TEXT = ("Props/C10.v proves, for all 280 instructions of the registry (core, three vector families, LIST incl. NEIGHBOR*, INPUT/OUTPUT, GRAPH, RAND), every profile, world and state: "
               "the instruction changes only the fields of its documented footprint (C10_frame), and when a needed operand is missing it only removes top items of typed stacks — "
-              "nothing pushed, no binding, flag, graph, INDEX entry, queue or configuration field changed, node counter and generator untouched (C10_unfired_only_pops), likewise when all operands are there but a guard on their values fails (C10_guard_fails_only_pops, 25 guards); "
+              "nothing pushed, no binding, flag, graph, INDEX entry, queue or configuration field changed, node counter and generator untouched (C10_unfired_only_pops), likewise when all operands are there but a guard on their values fails (C10_guard_fails_only_pops, 26 guards); "
               "one interpreter step changes EXEC plus the footprint of the executed item (C10_step_frame); no instruction writes the configuration; only NAME.QUOTE sets the quote flag. "
               "The tables are the human-readable specification; the checker looks instructions up in them BY NAME (not in the model) and evaluates the decidable predicates "
               "(C10_checker_sound) on the real interpreter's states: every name x every non-empty subset of too-short operand stacks x 4 fillings, every guard failing, plus random firing states, "
               "each also compared with the model's whole post-state.")
 LEVEL_NOTE = ("Trusted: Coq kernel, extraction, driver, harness, generators (see evidence trusted_base). Theorems closed under the global context. "
-              "Two documented exceptions are recorded in the requirement table as needing nothing (INTVECTOR.SET*INSERT, NAME.RANDBOUNDNAME); value-dependent guards beyond the 25 listed ones "
-              "(e.g. the zero divisor of FLOATVECTOR./) are covered by the frame theorem only.")
+              "Two documented exceptions are recorded in the requirement table as needing nothing (INTVECTOR.SET*INSERT, NAME.RANDBOUNDNAME); value-dependent conditions beyond the 26 listed guards "
+              "(e.g. CODE.RAND with a size limit <= 1, LIST.GET on an item that is not a list) are covered by the frame theorem only.")
